@@ -98,7 +98,9 @@ def run_race_driver(req, timeout_s=900):
         try:
             resp = json.loads(p.stdout.strip().splitlines()[-1])
         except Exception:
-            resp = {"end": "died:" + (p.stderr or "")[-2000:]}
+            err = p.stderr or ""
+            m = re.search(r"^(fatal error: [^\n]*|panic: [^\n]*)", err, re.M)       # the first line of a Go crash report is far above the goroutine dump's tail
+            resp = {"end": "died:" + ((m.group(1) + " ... ") if m else "") + err[-2000:]}
         reports = []
         for f in sorted(os.listdir(d)):
             text = open(os.path.join(d, f), errors="replace").read()
